@@ -213,7 +213,19 @@ impl Op {
         match self {
             Op::Sig { i, key, .. } => Some((*i, 0, *key)),
             Op::TapKeySig { i, .. } | Op::TapKeySigView { i } => Some((*i, 1, 0)),
-            Op::TapScriptSig { i, idx, .. } => Some((*i, 2, *idx)),
+            Op::TapScriptSig { i, idx, .. } => {
+                // the map key is (x-only key, leaf hash): equal leaf scripts at two positions of a
+                // tree share it, so the footprint is the first entry with the same map key
+                let m = &case.inputs[*i];
+                let tap = m.tap.as_ref().unwrap();
+                let (ki, li, _, _) = &m.tap_script_sigs[*idx];
+                let canon = m
+                    .tap_script_sigs
+                    .iter()
+                    .position(|(k2, l2, _, _)| m.keys[*k2] == m.keys[*ki] && tap.leaves[*l2].leaf_hash == tap.leaves[*li].leaf_hash)
+                    .unwrap_or(*idx);
+                Some((*i, 2, canon))
+            }
             Op::Preimage { i, kind, .. } => Some((*i, 3, *kind)),
             Op::Unknown { i, k, .. } => Some((*i, 4, *k as usize)),
             Op::Update { i, .. } => {
